@@ -207,9 +207,8 @@ class NaiveThresholdMatching(InstanceMatchingAlgorithm):
 
         # Loop through matched instances to compute PQ components
         for matching_score, (ref_label, pred_label) in mm_pairs:
-            if (
-                labelmap.contains_or(pred_label, ref_label)
-                and not self._allow_many_to_one
+            if labelmap.contains_pred(pred_label) or (
+                labelmap.contains_ref(ref_label) and not self._allow_many_to_one
             ):
                 continue  # -> doesnt make speed difference
             # TODO always go in here, but add the matching score to the pair (so evaluation over multiple thresholds becomes easy)
